@@ -301,7 +301,7 @@ def kernels_stream(ctx, n, maxlen, kinds=None, real=True, big=False):
                 hist = sems.setdefault("hist:" + arch, [])
                 im_.shared_history = [list(h) for h in hist[-3:]]
                 hist.append((lines, fd))
-            yield im_, {"source": "generated", "meta": meta}
+            yield im_, {"source": "generated", "meta": meta, "kind": kind_}
         except Exception as e:  # noqa
             ctx.count("impl_exceptions")
             ctx.violation("analysis of a generated kernel raised %s: %s" % (type(e).__name__, e),
